@@ -602,6 +602,63 @@ def rule_columns(F, R):
     R.floor("R-C08-7/colsize", n, 4, "identity encoders")
 
 
+def _shuffled_eval(F, R, sh1, sh2):
+    """shuffled(feature, samples) evaluated for a concrete permutation P of 4 samples and index lists of every kind the property allows (shorter,
+    as long as and longer than the number of samples; reversed; with repetitions): the result is [P[s] for s in samples]"""
+    import sympy as sp
+    from ..symexec import Interp
+    from ..kalg import OutOfFragment
+    P = [2, 0, 3, 1]
+    lists = [[], [1], [3, 1], [0, 1, 2, 3], [3, 2, 1, 0], [1, 1, 3, 3], [3, 3, 3, 3], [0, 2, 1], [2, 2, 0, 1, 3, 3, 0], [0, 1, 2, 3, 0, 1, 2, 3, 2]]
+
+    class SI(Interp):
+        asked = None
+
+        def ev(self, n):
+            n2 = skip(n)
+            if n2 is not None and n2["k"] == "call" and callee(n2) == sh1.qn and len(args(n2)) == 1:
+                self.asked.append(self.ev(args(n2)[0]))
+                return list(map(sp.Integer, P))
+            if n2 is not None and n2["k"] == "call" and n2.get("ck") == "mem" and callee(n2).split("::")[-1] == "size" and not args(n2):
+                o = self.ev(obj(n2))
+                if isinstance(o, list):
+                    return sp.Integer(len(o))
+            if n2 is not None and n2["k"] in ("construct", "initlist") and len(n2.get("c", ())) == 1 and "nano::tensor_t" in ((n2.get("t") or "") + (n2.get("cls") or "")):
+                v = self.ev(n2["c"][0])
+                if isinstance(v, list):
+                    return list(v)
+                if sp.sympify(v).is_Integer:
+                    return [sp.Symbol("unset")] * int(v)
+            if n2 is not None and n2["k"] == "cast" and n2.get("ck") == "ToVoid":
+                return sp.Integer(0)
+            return super().ev(n)
+
+    bad = None
+    nrun = 0
+    feat = sp.Symbol("feature", integer=True, nonnegative=True)
+    try:
+        for smp in lists:
+            it = SI(F, sh2, n=1)
+            it.asked = []
+            it.env[sh2.params[0]["d"]] = feat
+            it.env[sh2.params[1]["d"]] = list(map(sp.Integer, smp))
+            got = it.run()
+            nrun += 1
+            want = [sp.Integer(P[s_]) for s_ in smp]
+            if not isinstance(got, list) or [sp.sympify(x) for x in got] != want:
+                bad = "with the permutation %s of 4 samples, shuffled(feature, %s) evaluates to %s, the views read the samples %s" % (P, smp, got, [P[s_] for s_ in smp])
+                break
+            if any(a_ != feat for a_ in it.asked):
+                bad = "the permutation is asked for feature `%s`, not for the given feature" % it.asked[0]
+                break
+    except OutOfFragment as e:
+        R.incomplete("R-C08-10", "permutation applied", sh2.loc(), "cannot evaluate shuffled(feature, samples): %s" % e)
+        return
+    R.check(bad is None, "R-C08-10", "permutation applied", sh2.loc(), "result(i) = permutation(samples(i)) for every requested sample (evaluated for %d index lists: shorter, "
+            "as long as and longer than the sample count, reversed, with repetitions)" % nrun,
+            "shuffled(feature, samples) no longer maps every requested sample through the permutation: %s" % bad)
+
+
 def rule_drop_shuffle(F, R):
     """R-C08-10: the drop / shuffle bookkeeping: flag values agree between writers and readers, the permutation is stored and looked up under
     the shuffled feature's own index, applied to the requested samples, and the iterators read through it"""
@@ -716,17 +773,7 @@ def rule_drop_shuffle(F, R):
     okl = len(fnd) == 1 and pp(args(fnd[0])[0]) == fn and any(t.replace("->", ".").endswith(".second") or ".second" in t for t in rets) and any("tensor_t()" in t or t.endswith("{}") or "tensor_t" in t for t in rets)
     R.check(okl, "R-C08-10", "permutation lookup", sh1.loc(), "the permutation is looked up under the same feature index (identity when not shuffled)",
             "shuffled(feature) does not look the permutation up under its feature: %s" % rets)
-    a0, a1 = sh2.params[0]["n"], sh2.params[1]["n"]
-    allv = [v for v in sh2.nodes() if v["k"] == "var" and v.get("c") and pp(v["c"][0]) == "shuffled(%s)" % a0]
-    asg = [x for x in sh2.nodes() if assignment(x) and assignment(x)[2] == "="]
-    lp = [x for x in sh2.nodes() if x["k"] == "for"]
-    okm = len(allv) == 1 and len(asg) == 1 and len(lp) == 1
-    if okm:
-        iv = [v for v in walk(lp[0]["c"][lp[0]["r"].index("init")]) if v["k"] == "var"]
-        i_ = iv[0]["n"] if iv else "?"
-        okm = pp(assignment(asg[0])[1]) == "%s(%s(%s))" % (allv[0]["n"], a1, i_) and pp(assignment(asg[0])[0]).endswith("(%s)" % i_) and \
-            pp(lp[0]["c"][lp[0]["r"].index("cond")]) == "(%s < %s.size())" % (i_, a1)
-    R.check(bool(okm), "R-C08-10", "permutation applied", sh2.loc(), "result(i) = permutation(samples(i)) for every requested sample", "shuffled(feature, samples) no longer maps every requested sample through the permutation")
+    _shuffled_eval(F, R, sh1, sh2)
     # the sample iterators read through the permutation
     n = 0
     for f in F.functions.values():
